@@ -390,6 +390,28 @@ def run(ctx, rep, tier):
                   f"`{var}` comes from a .get(width, None) over widths {keys} and is used in `{unsafe_use}` with no None test: "
                   "any other declared size (the manual's own `size 16`) dies with TypeError instead of a diagnosed error", line=got.lineno)
 
+    # ------------------------------------------------------------------ C11.i start() has no `inval`
+    rep.rule("C11.i", "start() declares no `inval`: no template line emitted in start()-context (is_start) mentions it")
+    n_i = 0
+    for cl in classes:
+        o, cst = model.const_return(cl, "get_mode")
+        if cst is not None and ast.unparse(cst) == "ActionMode.EACH_CHARACTER":
+            continue   # per-character actions only ever sit on match transitions (Match.attach); they cannot be start actions
+        fp = E.enumerate(ACT, classes={"action": cl})
+        bad = set()
+        for p, val, it in iter_lines(fp):
+            if val.get("is_start") is True and feasible_action_path(val, actx):
+                n_i += 1
+                t = re.sub(r"\[\[.*?\]\]", "", it.text())
+                if re.search(r"\binval\b", t) and not it.text().strip().startswith("//"):
+                    bad.add(it.text().strip())
+        for t in sorted(bad):
+            rep.bad("C11.i", ACT, f"{cl} in start(): {t[:60]}", f"`{t}` is emitted into start(), where no `inval` exists: 'inval undeclared'")
+        if not bad:
+            rep.ok("C11.i", ACT, f"{cl}: start()-context lines are inval-free", nontrivial=False)
+    if n_i < 10:
+        raise AnalysisError("C11.i: start-context template lines not found")
+
     # ------------------------------------------------------------------ C11.h allocation calls only on pointer-declared members
     rep.rule("C11.h", "malloc / free / NULL assignment are only emitted for members declared as pointers (heap strings); raw and in-struct outputs are scalars / arrays")
     from .c03 import check_alloc_only_heap
